@@ -13,6 +13,7 @@ Sig(n) ==
     \o (IF Has(n, "#") THEN "[hash]" ELSE "") \o (IF Has(n, "?") THEN "[question]" ELSE "")
     \o (IF Has(n, ";") THEN "[semicolon]" ELSE "") \o (IF Has(n, "+") THEN "[plus]" ELSE "")
     \o (IF Has(n, "e'") THEN "[non-ascii]" ELSE "") \o (IF Has(n, "ca") THEN "[combining]" ELSE "")
+    \o (IF Has(n, "mj") THEN "[latin1-pair]" ELSE "")
 
 \* per name: r = [name, frontend, prefix, put, ctx : context -> verdict]
 JudgeName(r, i) ==
